@@ -102,18 +102,24 @@ func applyCmp(r *Range, e Edge, cond ssa.Value, truth bool, is func(ssa.Value) b
 	default:
 		return
 	}
-	var other ssa.Value
+	var other, matched ssa.Value
 	switch {
 	case is(strip(bo.X)) || is(bo.X):
-		other = bo.Y
+		other, matched = bo.Y, bo.X
 	case is(strip(bo.Y)) || is(bo.Y):
-		other = bo.X
+		other, matched = bo.X, bo.Y
 		op = flipOp(op)
 	default:
 		return
 	}
 	if !truth {
 		op = negateOp(op)
+	}
+	// len(x) != 0 on a length means len(x) >= 1
+	if op == token.NEQ {
+		if c, ok := constInt(other); ok && c == 0 && isLenCall(matched) && r.Lo < 1 {
+			r.Lo = 1
+		}
 	}
 	if c, ok := constInt(other); ok {
 		switch op {
@@ -144,6 +150,16 @@ func applyCmp(r *Range, e Edge, cond ssa.Value, truth bool, is func(ssa.Value) b
 		return
 	}
 	r.Sym = append(r.Sym, SymCons{Op: op, Other: other, Edge: e})
+}
+
+// isLenCall: v is len(…) / cap(…) (never negative).
+func isLenCall(v ssa.Value) bool {
+	cl, ok := strip(v).(*ssa.Call)
+	if !ok {
+		return false
+	}
+	b, ok := cl.Call.Value.(*ssa.Builtin)
+	return ok && (b.Name() == "len" || b.Name() == "cap")
 }
 
 // isVal returns a matcher for "the same value as v modulo conversions".
